@@ -244,11 +244,23 @@ def _pk_post(a, r):
     return bool(ok)
 
 
+def _wit_intermediate_depth():
+    """low-frequency peaks at intermediate depth (kd ~ 1): where a loosened solver tolerance shows"""
+    import numpy as np
+    from ocean_science_utilities.wavespectra.spectrum import create_1d_spectrum
+    f = np.array([0.03, 0.05, 0.075, 0.1, 0.125, 0.15, 0.2, 0.3, 0.4])
+    E = np.full((4, len(f)), 0.01)
+    for p, k in enumerate((3, 4, 1, 2)):
+        E[p, k] = 5.0
+    return create_1d_spectrum(f, E, np.arange(4) * 3600, np.zeros(4), np.zeros(4), a1=E * 0 + 0.1, b1=E * 0 + 0.1, a2=E * 0, b2=E * 0,
+                              depth=np.array([40.0, 26.0, 40.0, 15.0]))
+
+
 peak_wavenumber = Contract(S + "WaveSpectrum.peak_wavenumber", instances=[("1d", lambda mk: {"self": spectrum(mk, "1d")}), ("2d", lambda mk: {"self": spectrum(mk, "2d")})],
                            requires=REQ, ensures=[("solver_at_peak_frequency_and_own_depth", _with_ghost(_pk_post))], native=_native,
                            raises={"ValueError": _with_ghost(lambda a: _no_candidates_default_band(a))},
                            callees={**PK, SOLVER.target: SOLVER},
-                           witness=[lambda: ("1d", {"self": _wit_clean()})],
+                           witness=[lambda: ("1d", {"self": _wit_clean()}), lambda: ("1d", {"self": _wit_intermediate_depth()})],
                            options={"native_call": lambda kw, inst: kw["self"].peak_wavenumber})
 
 CONTRACTS = [peak_index, peak_frequency, peak_angular_frequency, peak_period, peak_direction, peak_spread, depth_c, peak_wavenumber]
